@@ -154,6 +154,8 @@ def std_check(pid, families, required, model_spec=None, assumptions=None, extra_
     return f
 
 DATA_MODEL = [("MCData", "MCData_quick", "MCData")]
+SOCK_MODEL = [("MCSocket", "MCSocket_quick", "MCSocket")]
+CLOSE_MODEL = [("MCClose", "MCClose_quick", "MCClose"), ("MCClose", "MCClose_live", "MCClose_live")]
 KF = [("kf", 6, 6)]
 
 @check("C01")
@@ -175,7 +177,7 @@ std_check("C02", [("xfer_clean", 30, 400), ("xfer", 40, 800), ("peer_recv", 24, 
                        "application pauses and network delays stay below the configured inactivity timeout; the SYN itself is not dropped"])
 std_check("C03", [("close", 120, 2000), ("xfer", 20, 300), ("peer_recv", 32, 500)] + KF,
           ["C03.FlushHonest", "C03.EofOnlyAfterFin", "C03.SuccessMeansDelivered", "C03.AbortSurfaces", "C03.FinInSequence"],
-          parts=[("ooq", ["C03."])])
+          parts=[("ooq", ["C03."])], model_spec=CLOSE_MODEL)
 std_check("C04", [("peer_recv", 100, 1500), ("xfer", 30, 400)] + KF,
           ["C04.AckExact", "C04.AckMonotone", "C04.SackExact", "C04.WindowHonest", "C04.WithinBuffer", "C04.ConsumeExact",
            "C04.OutOfOrderIsAhead", "C04.DuplicateIsOld", "C04.AlreadyPresentIsHeld"], model_spec=DATA_MODEL,
@@ -189,8 +191,7 @@ std_check("C06", [("peer_send", 120, 2000), ("xfer", 30, 400)] + KF,
 std_check("C07", [("peer_recv", 120, 2000), ("xfer_clean", 20, 200)],
           ["C07.NoSpontaneousAck", "C07.DelayedAck", "C07.ImmediateAck"])
 std_check("C08", [("close", 100, 1500), ("many", 40, 600)],
-          ["C08.SlotFreed", "C08.EndsInTime"])
-SOCK_MODEL = [("MCSocket", "MCSocket_quick", "MCSocket")]
+          ["C08.SlotFreed", "C08.EndsInTime"], model_spec=CLOSE_MODEL + SOCK_MODEL)
 std_check("C12", [("many", 80, 1200), ("backlog", 6, 60), ("evict", 16, 64)],
           ["C12.KeyUnique", "C12.LimitRespected", "C12.TableAgrees", "C12.RouteAgrees", "C12.DeliverToNamed", "C12.NoEviction",
            "C12.DeadCleanup"],
@@ -202,9 +203,9 @@ std_check("C13", [("many", 80, 1200), ("backlog", 10, 100)],
 std_check("C14", [("mtu", 60, 1000), ("xfer", 20, 200), ("hostile", 20, 200)],
           ["C14.NeverAboveLink", "C14.OrdinaryWithinProven", "C14.OneProbe", "C14.Converges", "C14.LogProbes"],
           parts=[("mtu", None), ("segs", ["C14."])])
-std_check("C17", [("close", 100, 1500), ("peer_send", 40, 500), ("peer_recv", 40, 500)],
+std_check("C17", [("close", 100, 1500), ("peer_send", 40, 500), ("peer_recv", 40, 500), ("hostile", 20, 300)],
           ["C17.FinSeq", "C17.FinAfterData", "C17.NothingAfterFin", "C17.PeerFinInOrder", "C17.FinAnswered",
-           "C17.ResetAborts", "C17.SynAckForm", "C17.SynAckRepeats"])
+           "C17.ResetAborts", "C17.SynAckForm", "C17.SynAckRepeats", "C17.Transition"], model_spec=CLOSE_MODEL)
 std_check("C18", [("peer_send", 120, 2000), ("xfer", 30, 300)],
           ["C18.NagleHold", "C18.NoHoldWhenOff", "C18.NagleDrain"])
 std_check("C19", [("peer_send", 100, 1500), ("xfer", 30, 300)],
